@@ -1090,6 +1090,82 @@ func TestManyPending(t *testing.T) {
 	})
 }
 
+// ---------------------------------------------------------------- largest packets
+
+// bigCall builds a call packet whose marshalled size is exactly target bytes (>= 40): "x", tid 9, null, an object of string properties.
+func bigCall(target int) *rtmp.CallPacket {
+	pkt := rtmp.NewCallPacket()
+	pkt.CommandName = "x"
+	pkt.TransactionID = 9
+	pkt.CommandObject = amf0.NewNull()
+	o := amf0.NewObject()
+	rem := target - (4 + 9 + 1) - 4 // name, tid, null; object marker + end
+	for i := 0; rem > 0; i++ {
+		// property: 2+5 bytes of name, 3+L bytes of string
+		l := min(65535, rem-10)
+		if left := rem - 10 - l; left > 0 && left < 10 {
+			l -= 10
+		}
+		b := make([]byte, l)
+		for j := range b {
+			b[j] = byte(i + j*7)
+		}
+		o.Set(fmt.Sprintf("k%04d", i), amf0.NewString(string(b)))
+		rem -= 10 + l
+	}
+	pkt.Args = o
+	return pkt
+}
+
+// TestLargestPackets: packets whose payload is as large as the 24-bit message length allows (and sizes around chunk and 64K boundaries) travel like any other.
+func TestLargestPackets(t *testing.T) {
+	rec := ev.New(prop, "largest-packets", "deterministic: call packets marshalling to exactly n bytes for n in {2^16-1, 2^16, 2^16+1, 2^20, 2^24-2, 2^24-1 (the largest a message header can announce)}, written by one endpoint and decoded by the peer; oracle: same type, re-marshals to the same payload; every case is non-trivial")
+	rec.Exhaustive()
+	sizes := []int{1<<16 - 1, 1 << 16, 1<<16 + 1, 1 << 20, 1<<24 - 2, 1<<24 - 1}
+	for _, n := range sizes {
+		err := runLargest(n)
+		rec.Case(true, uint64(n), []string{fmt.Sprintf("size:%d", n)}, func() any { return map[string]int{"payload_bytes": n} })
+		if err != nil {
+			err = fmt.Errorf("call packet of %d payload bytes: %v", n, err)
+			f := ev.Fail(prop, "largest-packets", map[string]int{"payload_bytes": n}, err)
+			t.Fatalf("%v (replay %s)", err, f)
+		}
+	}
+}
+
+func runLargest(n int) error {
+	{
+		return ev.WithTimeout(5*60e9, func() error {
+			pkt := bigCall(n)
+			want, e := pkt.MarshalBinary()
+			if e != nil || len(want) != n || pkt.Size() != n {
+				return fmt.Errorf("building the packet: %d bytes, Size()=%d, err %v", len(want), pkt.Size(), e)
+			}
+			pp := newPipe()
+			if e := pp.a.WritePacket(pkt, 1); e != nil {
+				return fmt.Errorf("WritePacket: %v", e)
+			}
+			m, e := pp.b.ReadMessage()
+			if e != nil {
+				return fmt.Errorf("ReadMessage: %v", e)
+			}
+			got, e := pp.b.DecodeMessage(m)
+			if e != nil {
+				return fmt.Errorf("DecodeMessage: %v", e)
+			}
+			call, ok := got.(*rtmp.CallPacket)
+			if !ok {
+				return fmt.Errorf("decoded as %T, want *rtmp.CallPacket", got)
+			}
+			back, e := call.MarshalBinary()
+			if e != nil || !bytes.Equal(back, want) {
+				return fmt.Errorf("re-marshalled payload differs (%d bytes, err %v; first difference at %d)", len(back), e, firstDiff(back, want))
+			}
+			return nil
+		})
+	}
+}
+
 func summarize(c HCase) any {
 	var s []string
 	for _, op := range c.Ops {
@@ -1108,11 +1184,11 @@ func summarize(c HCase) any {
 // ---------------------------------------------------------------- checks: typed waits
 
 type WCase struct {
-	Seq   []P    `json:"seq"`   // what B sends, in order
-	Raw   []int  `json:"raw"`   // for ExpectMessage: indices (into Seq order) before which an audio/video message is inserted
-	Want  string `json:"want"`  // packet kind waited for (ExpectPacket) or "" for ExpectMessage
-	Types []int  `json:"types"` // message types for ExpectMessage
-	Chunk uint32 `json:"chunk"` // B announces this chunk size first when non-zero
+	Seq   []P    `json:"seq"`            // what B sends, in order
+	Raw   []int  `json:"raw"`            // for ExpectMessage: indices (into Seq order) before which an audio/video message is inserted
+	Want  string `json:"want"`           // packet kind waited for (ExpectPacket) or "" for ExpectMessage
+	Types []int  `json:"types"`          // message types for ExpectMessage
+	Chunk uint32 `json:"chunk"`          // B announces this chunk size first when non-zero
 	AMF3  []int  `json:"amf3,omitempty"` // indices of Seq whose command is sent as an AMF3 command message (type 17, leading 0 byte)
 }
 
@@ -1396,6 +1472,13 @@ func replayers() map[string]ev.Replayer {
 			}
 			_, e := runHistory(c)
 			return e
+		},
+		"largest-packets": func(raw json.RawMessage) error {
+			var c map[string]int
+			if err := json.Unmarshal(raw, &c); err != nil {
+				return err
+			}
+			return runLargest(c["payload_bytes"])
 		},
 		"many-pending": func(raw json.RawMessage) error {
 			var c MCase
